@@ -38,6 +38,8 @@ const natHoleTimeoutS = 4  // nathole.NatHoleTimeout for this run (exported vari
 const userConnTimeoutS = 3 // server's userConnTimeout
 const maxLingerS = 1 + 38 + 30
 
+var nHistories int
+
 var (
 	srv   *h.Server
 	run   *h.Run
@@ -217,6 +219,7 @@ transport.maxPoolCount = 2
 	_ = bystander.register("bystander.x", "bystander-sk")
 
 	nHist := run.N(380, 6000)
+	nHistories = nHist
 	nAuth := run.N(40, 400)
 	nLife := run.N(50, 500)
 	nLoop := run.N(20, 120)
